@@ -1,9 +1,13 @@
 package main
 
 import (
+	"context"
 	"fmt"
+	"github.com/superfly/litefs"
 	"github.com/superfly/litefs/verifharness/sim"
+	"github.com/superfly/ltx"
 	"os"
+	"path/filepath"
 	"time"
 
 	"github.com/superfly/litefs/verifharness/core"
@@ -257,4 +261,83 @@ func runRestoreWithOpenTx(cs cfgSpec, donor []svcFile) (out outcome) {
 		w.doSync(syncPlan{})
 	}
 	return
+}
+
+// runContinuousMonitor: the primary's own backup loop (Store.monitorPrimaryBackup, BackupDelay > 0) instead of
+// passes driven one by one. The service does not know the database; while the first upload (a snapshot) is on
+// its way the application commits once more, then the primary is idle. The loop has to bring the service to
+// the primary's position (C14: "repeated syncs on an idle primary bring the service to the primary's
+// position") without giving up a transaction.
+func runContinuousMonitor(cs cfgSpec) (out outcome) {
+	dir := core.Scratch("c14-monitor")
+	defer os.RemoveAll(dir)
+	w := &world{cfg: cs.config(), dir: dir, lin: map[uint64]uint64{}, cks: map[int]uint64{}, wasOn: true}
+	w.be = newBackend(cs.Backend, dir)
+	defer w.be.Close()
+	defer finish(w, &out)
+	var err error
+	started := make(chan struct{})
+	w.node, err = sim.OpenNode(sim.NodeOpts{Dir: filepath.Join(dir, "data"), Primary: true, Compress: w.cfg.Compress,
+		Configure: func(s *litefs.Store) {
+			w.wc = &wrapClient{inner: w.be.Client(s)}
+			s.BackupClient = gatedBackup{w.wc, started}
+			s.BackupDelay = 20 * time.Millisecond
+			s.BackupFullSyncInterval = 0
+			s.Retention = time.Hour
+		}})
+	if err != nil {
+		core.Infra("open node: %v", err)
+	}
+	defer w.node.Close()
+	w.conn = w.node.Connect(dbName, 7)
+	defer w.conn.Close()
+	w.pg = sim.NewPager(w.conn, w.cfg.Layout, w.cfg.Pager)
+	if err := w.commit(1); err != nil {
+		core.Infra("commit 1: %v", err)
+	}
+	// the commit in the middle of the first upload
+	var cerr error
+	w.wc.mu.Lock()
+	w.wc.beforeWrite = func() { cerr = w.commit(2) }
+	w.wc.mu.Unlock()
+	close(started) // from here on the loop may talk to the service
+	want := func() ltx.Pos { return w.db().Pos() }
+	deadline := time.Now().Add(8 * time.Second)
+	for time.Now().Before(deadline) {
+		if cerr == nil && want().TXID == 2 && posOf(w.be.Files(dbName)) == want() {
+			break
+		}
+		time.Sleep(5 * time.Millisecond)
+	}
+	out.Nontrivial = true
+	w.evals += 2
+	o := w.observe()
+	if cerr != nil {
+		w.nonconf = append(w.nonconf, "continuous monitor: the commit during the upload failed: "+cerr.Error())
+		return
+	}
+	if o.Pos.TXID != 2 {
+		w.failf("C14.idle-syncs-converge", "continuous-monitor/primary-moved", map[string]any{"primary": o.Pos.String(), "service": o.spos().String(), "what": "the primary gave up a committed transaction"})
+		return
+	}
+	if o.spos() != o.Pos {
+		w.failf("C14.idle-syncs-converge", "continuous-monitor/service-behind-an-idle-primary", map[string]any{"primary": o.Pos.String(), "service": o.spos().String(),
+			"service_files": names(o.Svc), "bound": "8s with a 20 ms backup delay", "calls": callShape(w.wc.take())})
+	}
+	return
+}
+
+// gatedBackup keeps the store's backup loop away from the service until the scenario is set up.
+type gatedBackup struct {
+	*wrapClient
+	started chan struct{}
+}
+
+func (g gatedBackup) PosMap(ctx context.Context) (map[string]ltx.Pos, error) {
+	select {
+	case <-g.started:
+	case <-ctx.Done():
+		return nil, ctx.Err()
+	}
+	return g.wrapClient.PosMap(ctx)
 }
